@@ -84,6 +84,14 @@ Theorem C10_releasing_is_unreferenced : forall N K s0 s o, inv1 K s0 -> progs_ok
 Proof. exact releasing_is_unreferenced. Qed.
 Print Assumptions C10_releasing_is_unreferenced.
 
+(* a created / obtained object before its first increment has exactly one owner *)
+Theorem C10_fresh_single_owner : forall N K s0 s t o, inv1 K s0 -> progs_ok s0 -> reachable N K s0 s ->
+  t < length (s_thr s) -> In (AInc o None) (t_todo (thr s t)) ->
+  is_live (hobj s o) = true /\ o_cnt (hobj s o) = 0 /\ units o s = 1 /\ slots o s = 0 /\
+  forall u, u < length (s_thr s) -> u <> t -> thr_units o (thr s u) = 0.
+Proof. exact fresh_single_owner. Qed.
+Print Assumptions C10_fresh_single_owner.
+
 (* ---- heap states and pool bookkeeping together, in every reachable state ---- *)
 
 Theorem C10_pool_inv : forall N K s0 s, 1 <= N -> inv1 K s0 -> plink N s0 -> progs_ok s0 -> reachable N K s0 s ->
